@@ -17,14 +17,14 @@ head = f"""## Appendix: Seeded changes (independent sub-agents) and which checks
 
 Each change was produced by a fresh sub-agent that saw only the property text and a scratch worktree; it compiles,
 passes the 84 tests, and its demonstration fails with it and passes without it (`tools/seedverify.sh`, confirmed
-here in a scratch worktree). `tools/seedtest.sh` applies it to /repo, runs the check, and reverts. Five rounds, {n} changes
+here in a scratch worktree). `tools/seedtest.sh` applies it to /repo, runs the check, and reverts. Six rounds, {n} changes
 (variants a/b; c/d with different mechanisms; e/f aimed at cooperating sites, operation sequences on one tree object, the
-command layer and boundary inputs; g/h and i/j aimed at whatever the earlier ones had not used: later trees of a file,
+command layer and boundary inputs; g/h, i/j and k/l aimed at whatever the earlier ones had not used: later trees of a file,
 state left on an object by an earlier call, absent versus zero values, fast paths for special shapes, counts beyond one byte,
 half-done results reported as success, layouts and spellings other programs use). {missed} were missed by the first
 version of a check and led to a stronger workload (marked MISSED … After …); all of those are caught by the quick tier at
 VERIF_SEED=1 now; `tools/seedregress.py` re-applies every change to a scratch copy of the repository and re-runs the check(s)
-named here (last full run: all 196 changes outside the documented non-detections reported; four old patches needed a
+named here (last full run, over the first 200: all 196 changes outside the documented non-detections reported; four old patches needed a
 `patch.rebased.diff` because later fix commits touched the same lines). {len(other)} thread-count changes submitted under C10/C18 ({', '.join(other)}) are decided by C11. {len(nd)} ({', '.join(nd)}) are
 documented non-detections because the changed behaviour lies outside what the property states (an oracle for it would alarm
 on code where the property holds, or no user-reachable execution shows it). What the misses taught, as generic workload
@@ -41,7 +41,10 @@ documents replaced by hostile ones (-4, 2^63-1, null) while the document stays w
 (same letters in another case, prefixes, _1/_10/_01); hundreds of small trees (255, 256, 257, 300, 1000) and nodes with more
 than 255 neighbours; several erroneous trees in one stream and errors arriving through the real reader; the same argument
 slices passed to a second call; objects re-rooted or resolved before the operation under test, with the model read off the
-object (the text of a re-rooted tree can hide a support behind a node name).
+object (the text of a re-rooted tree can hide a support behind a node name); gzip files of several members, Windows
+line ends, replicate files whose trees all carry one name; tree identifiers other than 0..n-1; colliding keys engineered for
+hash functions; a second option moved while the one under test is toggled; library preparations exactly as the
+documentation words them.
 
 | seed | change | result |
 |---|---|---|
